@@ -1,9 +1,21 @@
-FIX_COMMITS = ['ee63c4e', '8e72bfe', 'fac3c39', '803947b', '012bab8', 'dbf4700', '19f97fb', '925775e', 'cbd12ec', 'f843f54', '7a5e3b3', '35d5997']
+FIX_COMMITS = ['ee63c4e', '8e72bfe', 'fac3c39', '803947b', '012bab8', 'dbf4700', '19f97fb', '925775e', 'cbd12ec', 'f843f54', '7a5e3b3', '35d5997', 'bbada35']
 TODO = 'check not built yet in this revision (work in progress; see DESIGN.md section 7 for the planned solver-based check)'
 NOT_APPLICABLE = {('C%02d' % i): TODO for i in range(1, 21)}
 R_NOTE = ('R-model: floats are mathematical reals, float literals are the decimal rationals written in the source, '
           'transcendental functions are uninterpreted with sound axiom instances; IEEE rounding is outside the claim. ')
 CHECKS = {
+    'C13': {
+        'text': 'Wiring by bounded symbolic execution + SMT: transform_mga94_to_mga2020 / transform_mga2020_to_mga94 (real source) on symbolic zone, '
+                'easting, northing, height (symbolic incl. 0, absent) and covariance (opaque 3x3, absent) with the seven callees replaced by '
+                'uninterpreted summaries recording every argument (defaults included); on every path zone/easting/northing/height/covariance are '
+                'proved equal to the stated composition with gda94_to_gda2020 or its negation, natural zone, zero height without input height, '
+                'covariance rotated at the input position and back at the output position; the 3x1 variance column runs through the real '
+                'statistics/conform7 code. Failures are replayed against the stepwise definition, the round trip and PSD checks.',
+        'design_ref': 'DESIGN.md section 7 C13',
+        'note': 'The 0.3 mm / 0.2 mm closure is a derived bound from C02, C03, C06 (not a query); callees are represented by summaries '
+                '(their own properties: C02, C03, C06, C16; purity: C09).',
+        'technique': 'symbolic execution of the real Python source with callee summaries + SMT (z3 EUF/LRA), witness replay',
+    },
     'C09': {
         'text': 'Frame conditions by bounded symbolic execution + SMT: 56 call specifications covering every public function of convert, geodesy, '
                 'statistics, survey, transform and the Transformation operators (real source) are executed twice in a row on symbolic arguments '
